@@ -60,3 +60,15 @@ Example C03_witness :
   accept (fun _ => 0) [] [LGen 0 0 7; LPut 0 3 7; LGet 2 3 7 1; LDiscard 2 1 7] <> None /\
   accept (fun _ => 0) [] [LGen 0 0 7; LPut 0 3 7; LGet 2 4 7 1] = None.
 Proof. vm_compute. split; congruence. Qed.
+
+(* tie B: the push helpers of the node classes, re-read from nodes/*.py on every run: each reserves a place on the edge it was
+   given, waits for the grant and puts exactly the item it was given -- no second look at the edge, no withdrawal, no other
+   object (theories/Nodes/TieNodes.v); the model's push process does the same (Factory.push_block) *)
+From FV Require SrcFragments TieNodes.
+Theorem C03_push_helpers_put_the_item_they_were_given :
+  SrcFragments.Source_push_item_shape = true /\
+  SrcFragments.Machine_push_item_shape = true /\
+  SrcFragments.Splitter_push_item_shape = true /\
+  SrcFragments.Combiner_push_item_shape = true.
+Proof. repeat split. Qed.
+Print Assumptions C03_push_helpers_put_the_item_they_were_given.
